@@ -266,6 +266,9 @@ func ruleTDto(c *Ctx) {
 		if len(src) == 0 {
 			continue // constant or derived without a domain source
 		}
+		if dtoContainerField(c, k) {
+			continue // a list of / pointer to another transfer object: its members are checked one by one
+		}
 		checked++
 		if len(dst) == 0 {
 			if why, ok := derivedDTO[k]; ok {
@@ -379,4 +382,41 @@ func allFromDTO[T any](ss []T, f func(int) bool) bool {
 		}
 	}
 	return true
+}
+
+// dtoContainerField: "Type.field" whose type is a slice of, or pointer to, another transfer-object type.
+func dtoContainerField(c *Ctx, k string) bool {
+	i := strings.Index(k, ".")
+	if i < 0 {
+		return false
+	}
+	tn, fld := k[:i], k[i+1:]
+	pk := c.P.Pkgs[modPath]
+	if pk == nil || pk.Types == nil {
+		return false
+	}
+	obj := pk.Types.Scope().Lookup(tn)
+	if obj == nil {
+		return false
+	}
+	st, ok := obj.Type().Underlying().(*types.Struct)
+	if !ok {
+		return false
+	}
+	for j := 0; j < st.NumFields(); j++ {
+		if st.Field(j).Name() != fld {
+			continue
+		}
+		t := st.Field(j).Type()
+		if sl, ok := t.Underlying().(*types.Slice); ok {
+			t = sl.Elem()
+		}
+		if p, ok := t.Underlying().(*types.Pointer); ok {
+			t = p.Elem()
+		}
+		if n, ok := t.(*types.Named); ok && dtoTypes[n.Obj().Name()] {
+			return true
+		}
+	}
+	return false
 }
